@@ -51,16 +51,32 @@ def run(ctx):
         stage = "construct"
         try:
             d = mk()
+            storage["i"] += 1
             X = pd.DataFrame(rng.normal(size=(max(n, 0), p)) * 2 + np.arange(max(n, 0)).reshape(-1, 1) * 0.01)
             if storage["i"] % 5 == 4:
                 # "every finite input": constant data (scores are pure rounding noise, a tuned threshold can be zero or slightly negative)
                 X = pd.DataFrame(np.full((max(n, 0), p), [3.7, 0.1, 7.77][(storage["i"] // 5) % 3]))
                 ctx.count("data", "constant")
+            if storage["i"] % 11 == 10:
+                # "every finite input": finite numbers so large that their plain sum overflows (1e307 .. 1e308)
+                X = pd.DataFrame((rng.normal(size=(max(n, 0), p)) * 0.3 + 1.0) * 1e307)
+                ctx.count("data", "huge-finite")
             if nan and n > 0:
-                X.iloc[n // 2, p - 1] = np.nan
+                # a missing value anywhere makes the data inadmissible: interior, first or last row, or a whole border row
+                where = storage["nan"] = storage.get("nan", 0) + 1
+                if where % 5 == 0:
+                    X.iloc[n // 2, p - 1] = np.nan
+                elif where % 5 == 1:
+                    X.iloc[0, p - 1] = np.nan
+                elif where % 5 == 2:
+                    X.iloc[n - 1, 0] = np.nan
+                elif where % 5 == 3:
+                    X.iloc[0, :] = np.nan
+                else:
+                    X.iloc[n - 1, :] = np.nan
+                ctx.count("nan_position", ["interior", "first row", "last row", "whole first row", "whole last row"][where % 5])
             # the same numbers in other column storages (every 7th attempt): pandas nullable Float64, object dtype, integer-valued nullable Int64 next to float64
-            storage["i"] += 1
-            if n > 0 and storage["i"] % 7 == 0:
+            if n > 0 and storage["i"] % 7 == 0 and storage["i"] % 11 != 10:
                 kind_s = (storage["i"] // 7) % 2
                 if kind_s == 0:
                     X = X.astype("Float64")          # np.nan becomes pd.NA
